@@ -141,6 +141,37 @@ theorem curvLoop_spec (keyMul : ℕ → ℕ → ℤ) (D : Mat) (diam d : ℕ) (f
     · rename_i hc
       exact ⟨List.Sublist.refl _, pairwise_of_anyUpperLess_false (by simpa using hc)⟩
 
+theorem sortKeys_length (keyMul : ℕ → ℕ → ℤ) (K : Mat) (diam d : ℕ) :
+    (sortKeys keyMul K diam d).length = K.length := by simp [sortKeys]
+
+/-- the recursion bound of `curvLoop` (the number of kept indices) is never exhausted -/
+theorem curvLoop_fuel_succ (keyMul : ℕ → ℕ → ℤ) (D : Mat) (diam d fuel : ℕ) (idx : List ℕ)
+    (h : idx.length ≤ fuel) :
+    curvLoop keyMul D diam d (fuel + 1) idx = curvLoop keyMul D diam d fuel idx := by
+  induction fuel generalizing idx with
+  | zero =>
+    have : idx = [] := List.length_eq_zero_iff.1 (by omega)
+    subst this
+    simp [curvLoop, sub, anyUpperLess]
+  | succ fuel ih =>
+    conv_lhs => rw [curvLoop]
+    conv_rhs => rw [curvLoop]
+    split
+    · rename_i hc
+      apply ih
+      have hne : idx ≠ [] := by
+        intro e; subst e; simp [sub, anyUpperLess] at hc
+      have hk : sortKeys keyMul (sub D idx) diam d ≠ [] := by
+        intro e
+        have := sortKeys_length keyMul (sub D idx) diam d
+        rw [e, sub_length] at this
+        exact hne (List.length_eq_zero_iff.1 this.symm)
+      have hlt := argmin_lt hk
+      rw [sortKeys_length, sub_length] at hlt
+      rw [List.length_eraseIdx, if_pos hlt]
+      omega
+    · rfl
+
 theorem largestBoundedCurvatureIdx_spec (keyMul : ℕ → ℕ → ℤ) (D : Mat) (diam d : ℕ) :
     (largestBoundedCurvatureIdx keyMul D diam d).Sublist (List.range D.length) ∧
       (largestBoundedCurvatureIdx keyMul D diam d).Pairwise fun i j => d ≤ ent D i j := by
